@@ -48,6 +48,9 @@ type bsim struct {
 	// perturbations of the current execution
 	permuteWalk   bool
 	permuteMods   bool
+	permuteLists  bool
+	lintUse       []string
+	lintExcept    []string
 	permutePaths  bool
 	faults        bool
 	faultRate     int
@@ -147,8 +150,8 @@ func (m *bsim) buildModuleSet(ctx context.Context, files map[string]string) (buf
 			opts = append(opts, bufmodule.LocalModuleWithFullNameAndCommitID(fn, mod.CommitID))
 		}
 		if len(mod.TargetPaths) > 0 || len(mod.ExcludePaths) > 0 {
-			tps := append([]string(nil), mod.TargetPaths...)
-			eps := append([]string(nil), mod.ExcludePaths...)
+			tps := m.permuted(fmt.Sprintf("tpaths%d", i), mod.TargetPaths)
+			eps := m.permuted(fmt.Sprintf("epaths%d", i), mod.ExcludePaths)
 			opts = append(opts, bufmodule.LocalModuleWithTargetPaths(tps, eps))
 		}
 		builder.AddLocalModule(bucket, fmt.Sprintf("bucket-%d", i), mod.Targeted, opts...)
@@ -376,6 +379,21 @@ func Run(tp *tape.Tape, env *engine.Env) *engine.Outcome {
 
 	if m.prop == "C02" {
 		m.against = m.ws.Mutate(tp)
+		// a tape-chosen rule selection: categories and single rule ids, with exceptions
+		pool := []string{"STANDARD", "COMMENTS", "UNARY_RPC", "PACKAGE_NO_IMPORT_CYCLE", "MINIMAL", "BASIC", "RPC_NO_CLIENT_STREAMING"}
+		for _, id := range pool {
+			if tp.Draw("lintpick", 2) == 1 {
+				m.lintUse = append(m.lintUse, id)
+			}
+		}
+		if len(m.lintUse) == 0 {
+			m.lintUse = []string{"STANDARD"}
+		}
+		for _, id := range []string{"PACKAGE_VERSION_SUFFIX", "ENUM_ZERO_VALUE_SUFFIX", "COMMENT_FIELD", "SERVICE_SUFFIX"} {
+			if tp.Draw("exceptpick", 3) == 1 {
+				m.lintExcept = append(m.lintExcept, id)
+			}
+		}
 	}
 	var ref map[string]*descriptorpb.FileDescriptorProto
 	if mode != "planted" {
@@ -425,6 +443,7 @@ func Run(tp *tape.Tape, env *engine.Env) *engine.Outcome {
 		thread.SetParallelism(par)
 		m.permuteWalk = tp.Draw("permwalk", 2) == 1
 		m.permuteMods = tp.Draw("permmods", 2) == 1
+		m.permuteLists = tp.Draw("permlists", 2) == 1
 		s.YieldJobs = tp.Draw("yieldjobs", 2) == 1
 		m.faults, m.cancelAt = false, 0
 		if mode == "fault" {
